@@ -42,8 +42,13 @@ def chk_full(case, acc, seed):
     try:
         if prop == 'dft':
             out = lentil.propagate_dft(w, du, shape=(N[0] // os_, N[1] // os_), oversample=os_)
-        else:
+        elif prop == 'fft':
             out = lentil.propagate_fft(w, du, oversample=os_)
+        else:
+            # FFT propagator with a re-used, dirty scratch buffer (larger than the grid, prior content everywhere)
+            scr = np.full((N[0] + 2, N[1] + 1), 7 + 1j, dtype=complex)
+            lentil.propagate_fft(w, du, oversample=os_, scratch=scr)
+            out = lentil.propagate_fft(w, du, oversample=os_, scratch=scr)
         I = out.intensity
     except Exception as e:
         acc.violation(f'energy:raises:{prop}:{type(e).__name__}', case, repr(e))
@@ -144,8 +149,9 @@ def t_pupil(arg, acc):
                     chk_full({'kind': 'full', 'pupil': pupil, 'N': (Nr, Nc), 'os': os_, 'prop': 'dft'}, acc, seed)
                     if (Nr + Nc) % 2 == 0 or tier != 'quick':
                         chk_nested({'kind': 'nested', 'pupil': pupil, 'N': (Nr, Nc), 'os': os_}, acc, seed)
-                acc.transitions += 1
+                acc.transitions += 2
                 chk_full({'kind': 'full', 'pupil': pupil, 'N': (Nr, Nc), 'os': os_, 'prop': 'fft'}, acc, seed)
+                chk_full({'kind': 'full', 'pupil': pupil, 'N': (Nr, Nc), 'os': os_, 'prop': 'fft-scratch'}, acc, seed)
             for p in (0.5, 1, 2, 7):
                 for prop in ('dft', 'fft'):
                     acc.transitions += 1
@@ -167,7 +173,7 @@ def run(tier, seed, acc, procs=None):
                 'mask boxes; normalize_power targets {1/2,1,2,7} on real, complex and integer arrays and through propagation.',
         'bounds': {'pupils': pupils(tier), 'period_span': 5 if tier == 'quick' else 6, 'oversample': [1, 2, 3]},
         'assumptions': ['tolerance 1e-10 relative on power sums (rounding only)'],
-        'require': {'dft:iso': 10, 'dft:aniso': 50, 'fft:iso': 10, 'fft:aniso': 50, 'nested': 20, 'normalized': 50},
+        'require': {'dft:iso': 10, 'dft:aniso': 50, 'fft:iso': 10, 'fft:aniso': 50, 'fft-scratch:aniso': 50, 'nested': 20, 'normalized': 50},
     }
 
 
